@@ -10,8 +10,16 @@ import Sgz.Model.Arith
 namespace Sgz
 namespace Export
 
+/-- the stored SEG-Y file header is the second 4096-byte block of the SGZ header -/
+def segyHeaderAt : Nat := 4096
+/-- byte positions, within the SEG-Y file header, of the data-sample-format code and of the extended-header count -/
+def formatAt : Nat := 3224
+def extCountAt : Nat := 3504
+/-- bytes of the SEG-Y file header (textual + binary), written back over the start of the export -/
+def fileHeaderBytes : Nat := 3600
+
 /-- `struct.unpack('>H', hdr[3224:3226])` on the stored file header (a byte function) -/
-def formatOf (fh : Nat → Nat) : Nat := fh 3224 * 256 + fh 3225
+def formatOf (fh : Nat → Nat) : Nat := fh formatAt * 256 + fh (formatAt + 1)
 
 def supportedFormat (c : Nat) : Bool := c == 1 || c == 5
 
@@ -26,8 +34,11 @@ def exportFileHeader (fh : Nat → Nat) : Nat → Nat :=
 /-- `struct.unpack('>h', hdr[3504:3506])`: the number of extended textual headers the source's binary header announces
 (negative = "variable", taken as none) -/
 def extCount (fh : Nat → Nat) : Nat :=
-  let w := fh 3504 * 256 + fh 3505
+  let w := fh extCountAt * 256 + fh (extCountAt + 1)
   if w < 32768 then w else 0
+
+/-- what `'>h'` makes of the 16-bit word `w` -/
+def signed16 (w : Nat) : Int := if w < 32768 then (w : Int) else (w : Int) - 65536
 
 /-- file offset of trace `t` of the export: after the file headers, the (blank) extended textual headers segyio is asked to
 leave room for, and `t` traces of 240 + 4·ns bytes -/
